@@ -36,7 +36,7 @@ prop(
 
 prop(
     'C15',
-    ['S1', 'S2', 'S3', 'S6', 'S7', 'S8', 'S9', 'V1', 'V2', 'X12'],
+    ['S1', 'S2', 'S3', 'S6', 'S7', 'S8', 'S9', 'V1', 'V2', 'V3', 'X12'],
     explanation=(
         'Sibling agreement of the per-class protocol with the slot table derived from attrs field annotations (20 concrete '
         'AST classes, 23 child slots). S2: children() evaluated per enum member / None-ness combination allowed by the '
@@ -178,7 +178,7 @@ prop(
 
 prop(
     'C08',
-    ['T3', 'T4', 'R6', 'R7', 'R8', 'R9', 'R10', 'R11', 'R12', 'D5', 'V1', 'X3b', 'X1', 'X2', 'T6'],
+    ['T3', 'T4', 'R6', 'R7', 'R8', 'R9', 'R10', 'R11', 'R12', 'D5', 'V1', 'V3', 'X3b', 'X1', 'X2', 'T6'],
     explanation=(
         'The table-driven parts of the simplifier and its local identities: T3 commutative/associative flags equal the mathematical ground truth '
         '(used by _pre_simplify_binop to commute/re-associate), T4 INVERSE_OPERATORS is the mirror involution (used to flip '
@@ -260,7 +260,7 @@ prop(
 
 prop(
     'C17',
-    ['S5', 'S10', 'F3', 'T5', 'A5', 'A8', 'A9', 'X8', 'X1', 'X12', 'M1', 'S8'],
+    ['S5', 'S10', 'F3', 'T5', 'A5', 'A8', 'A9', 'X8', 'X1', 'X12', 'V3', 'M1', 'S8'],
     explanation=(
         'S5 the generic walk pushes all children of every non-accessor node and accessors visit object chain and index; F3 '
         'provenance of the alias -> type mapping; T5 (u)intN bounds computed from the bit width; A5 token validators '
@@ -302,7 +302,7 @@ prop(
 
 prop(
     'C09',
-    ['R1', 'R4', 'R4b', 'X3b', 'S3', 'T2'],
+    ['R1', 'R4', 'R4b', 'X3b', 'S3', 'T2', 'V3'],
     explanation=(
         'Schema extraction + finite-model check. R1: for every syntactic path of _split_and_not, _split_and_quantifier and '
         '_and_presplit_transform the input shape is read from the guards (is_not/is_or/is_implies/quantifier kind, '
@@ -321,7 +321,7 @@ prop(
 
 prop(
     'C10',
-    ['R2', 'S3', 'T2'],
+    ['R2', 'S3', 'T2', 'V3'],
     explanation=(
         'R2: for every path of _refactor_ref_expr, _split_ref_operator, _split_ref_negation and _split_ref_quantifier the '
         'returned pair (f1, f2) is converted to formulas as in R1 and f1 & f2 == input is checked in all models with domain '
@@ -334,7 +334,7 @@ prop(
 
 prop(
     'C13',
-    ['R3', 'R5', 'R5b', 'V1', 'S4', 'S3', 'X12'],
+    ['R3', 'R5', 'R5b', 'V1', 'V3', 'S4', 'S3', 'X12'],
     explanation=(
         'R3: negate/join of the three predicate classes against the combinator table (~T=F, ~F=T, ~~p=p only under a "not" '
         'guard, ~p=Not(p); T&q=q, F&q=F, p&T=p, p&F=F, p&q=And(p,q)); predicate_from_expression maps literal conditions to '
